@@ -21,7 +21,9 @@ META = {
     "level": "model_checking",
     "text": "Unwrap.tla is model checked exhaustively at moduli 16/32/64 (every state below K*M, every input, every non-negative "
             "true stream with steps < M/2: non-negative, congruent, within M/2 of the previous result whenever such a value "
-            "exists, exact reconstruction). The real Unwrapper is bound to it by complete tables: for each start state (reached "
+            "exists, exact reconstruction) and, in IndUnwrap.tla, the same clauses are ONE inductive invariant that Apalache "
+            "discharges at the real modulus 65536 for every non-negative state (no bound on the history; base case, step, "
+            "a non-inductiveness control and four reachability controls). The real Unwrapper is bound to it by complete tables: for each start state (reached "
             "by a recorded input chain) Unwrap(v) is recorded for ALL 65536 inputs and TLC checks every (state, input) pair "
             "against the specification at the real modulus; plus TLC-enumerated boundary-alphabet chains and seeded random "
             "chains validated statefully.",
@@ -32,7 +34,7 @@ META = {
             "thorough tier covers states below 2^17 at the stride recorded in the evidence. Trusted: the reading of the "
             "property in Unwrap.tla / Ntp.tla (floor at zero, derived tolerances), TLC, Apalache 0.58 constant evaluation.",
     "technique": "TLA+ spec + TLC model checking, TLC-generated behaviours replayed into the Go code, recorded traces/tables "
-                 "validated by TLC; Apalache for the 64-bit NTP clauses",
+                 "validated by TLC; Apalache for the unbounded inductive invariant of the unwrapper and the 64-bit NTP clauses",
     "design_ref": "DESIGN.md section 7 C20",
 }
 
@@ -221,6 +223,54 @@ def job_mc(ch):
                      note="negative control: the unguarded clause must fail (floor at zero)")
 
 
+IND_RUNS = (   # (init, invariant, length, expected exit: 0 = holds, 12 = counterexample, state in which it must be violated)
+    ("Init", "IndInv", 0, 0, None), ("IndInit", "IndInv", 1, 0, None),
+    ("IndInitNeg", "IndInvNeg", 1, 12, 1),
+    ("IndInit", "NoHuge", 1, 12, 1), ("IndInit", "NoBackwardTrue", 1, 12, 1), ("IndInit", "NoFloor", 1, 12, 1),
+    ("IndInit", "NoTie", 1, 12, 1))
+
+
+def _ind_one(ch, k, init, inv, length, want, state, timeout=900):
+    wd = ch.path("apalache-ind-%d" % k)
+    os.makedirs(wd, exist_ok=True)
+    for f in ("Unwrap.tla", "IndUnwrap.tla"):
+        shutil.copy(os.path.join(ch.spec, f), os.path.join(wd, f))
+    env = dict(os.environ)
+    env.pop("JAVA_TOOL_OPTIONS", None)
+    env["TMPDIR"] = wd
+    env.setdefault("JVM_ARGS", "-Xmx2g")
+    cmd = ["timeout", str(timeout), "apalache-mc", "check", "--cinit=CInit", "--init=" + init, "--inv=" + inv,
+           "--length=%d" % length, "--out-dir=" + os.path.join(wd, "out"), "IndUnwrap.tla"]
+    t = time.time()
+    try:
+        p = subprocess.run(cmd, cwd=wd, env=env, stdout=subprocess.PIPE, stderr=subprocess.STDOUT, text=True)
+    except OSError as e:
+        raise vlib.Infra("cannot run apalache-mc: %s" % e)
+    rec = {"module": "IndUnwrap.tla", "mode": "apalache check --init=%s --inv=%s --length=%d (M = 65536, unbounded state)" % (init, inv, length),
+           "wall_s": round(time.time() - t, 1), "exit": p.returncode, "expected_exit": want}
+    ch.cov["model_runs"].append(rec)
+    if p.returncode != want:
+        raise vlib.Infra("IndUnwrap: --init=%s --inv=%s gave exit %d, expected %d (the specification's own lemma, not the code):\n%s"
+                         % (init, inv, p.returncode, want, p.stdout[-2500:]))
+    if state is not None and ("State %d: state invariant 0 violated" % state) not in p.stdout:
+        raise vlib.Infra("IndUnwrap: control %s was not violated in state %d:\n%s" % (inv, state, p.stdout[-2500:]))
+    return rec
+
+
+def job_inductive(ch):
+    """Unbounded counterpart of job_mc: the clauses as ONE inductive invariant at the real modulus, discharged by Apalache/Z3
+    for every non-negative state (base case + step), with a non-inductiveness control and four reachability controls."""
+    t0 = time.time()
+    with concurrent.futures.ThreadPoolExecutor(max_workers=4) as ex:
+        futs = [ex.submit(_ind_one, ch, k, *r) for k, r in enumerate(IND_RUNS)]
+        for f in futs:
+            f.result()
+    ch.extra["unwrap_inductive"] = {"modulus": M, "runs": len(IND_RUNS), "wall_s": round(time.time() - t0, 1),
+                                    "proved": "IndInv (Congruent, FirstIsInput, Near, FloorAtZero, Idempotent, Exact, NonNegative) "
+                                              "is inductive for every state with last >= 0"}
+    ch.log("(A) IndUnwrap: inductive invariant at M = %d, %d Apalache runs, %.1fs" % (M, len(IND_RUNS), time.time() - t0))
+
+
 _TRACE_ML = re.compile(r'<<\s*"TRACE",\s*"(\[[0-9,\s]*\])"\s*>>')
 
 
@@ -297,7 +347,7 @@ def job_tables(tag, targets_list, fresh=False):
 
 
 def unwrap_jobs(ctx, rng):
-    jobs = [("mc", job_mc), ("gen", job_gen)]
+    jobs = [("mc", job_mc), ("inductive", job_inductive), ("gen", job_gen)]
     low, mid, high = boundary_states(rng)
     if ctx.quick:
         jobs.append(("tab-low", job_tables("T-tables-low", [low], fresh=True)))
@@ -564,7 +614,8 @@ def _finish(ctx):
         "the result is the input itself (floor at zero) - DESIGN.md C20",
         "table start states are reached by input chains whose every step is validated; a table is taken on a copy of the "
         "Unwrapper struct (value semantics)",
-        "Unwrapper states are explored below 2^31 (TLC integers are 32-bit); int64 overflow of lastUnwrapped is out of scope",
+        "the real Unwrapper is compared with the specification at states below 2^31 (TLC integers are 32-bit); above that only the "
+        "specification is covered (IndUnwrap, unbounded integers) - int64 overflow of lastUnwrapped in the code is out of scope",
         "Ntp.tla tolerances: 1 us = 4295 units for the 64-bit value, 1000 ns round trip, 2^-16 s + 1 us for the middle form; "
         "instants 1970-01-01 .. 2036-01-01; Apalache 0.58 evaluates the literal rows (constant simplification / Z3)",
         "NTP half is sampled: a float64 anomaly between samples would be missed",
